@@ -22,6 +22,10 @@ def main():
                        "and correspondence run for this property are not committed yet"})
             continue
         mod = importlib.import_module("props." + pid)
+        if not getattr(mod, "THEOREMS", None) and not getattr(mod, "CLAIM_WITHOUT_THEOREMS", False):
+            na.append({"property_id": pid, "reason": "check under construction (DESIGN.md section 5): the mirror, the "
+                       "specification and the correspondence run exist, the Lean theorems are not committed yet"})
+            continue
         checks.append({
             "property_id": pid,
             "quick_cmd": "%s harness/check.py %s --tier quick" % (PY, pid),
